@@ -34,9 +34,13 @@ def acceptor(hist, io):
     # composite key, can differ between processes: D12)
     oplines = [l for l, _ in io if l.startswith('op ')]
     rk1, rk2 = base.line_field(oplines[0], 'k'), base.line_field(oplines[1], 'k')
-    if res[3] != (b if doc else a):
+    added = ops[1]['m'] == 'add'
+    if added and res[1] != ('F' if doc else 'T'):
+        return 'add(%r) with %r present returned %s (documented equality: %s)' % (k2, k1, res[1], 'equal' if doc else 'different keys')
+    second_val = a if (doc and added) else b
+    if res[3] != (second_val if doc else a):
         return 'get(%r) returned %s' % (k1, res[3][:40])
-    if res[4] != b:
+    if res[4] != second_val:
         return 'get(%r) returned %s' % (k2, res[4][:40])
     for j in (6, 7, 8, 9):
         got = res[j][1:-1].split(',') if len(res[j]) > 2 else []
